@@ -143,7 +143,10 @@ def prop_case(case):
     k = rnd.randint(1, len(nodes))
     subset = rnd.sample(nodes, k)
     try:
-        st_, Ds = full.summary(subset)
+        form = rnd.choice(['list', 'list', 'tuple', 'iter', 'generator', 'set'])      # 'the nodes that we want to focus on': any iterable, also one-shot
+        given = {'list': list(subset), 'tuple': tuple(subset), 'iter': iter(list(subset)), 'generator': (u for u in list(subset)),
+                 'set': set(subset)}[form]
+        st_, Ds = full.summary(given)
         st_ = [float(x) for x in st_]
         times = sorted(set(a for u in subset for a in hist[u][0]))
         want = {s: [sum(1 for u in subset if naive_status(hist[u], a) == s) for a in times] for s in sts}
